@@ -107,7 +107,7 @@ func c10Setup(w *vfWorld, name string) (*c10Env, error) {
 	}
 	opts := ServiceOptions{TLSRedirect: true}
 	opts.Normalize()
-	if err := e.r.DeployService("svc", e.active, opts, vfFastTargetOptions(), 5*time.Second, time.Second); err != nil {
+	if err := vfDeploy(e.r, "svc", e.active, opts, vfFastTargetOptions(), 5*time.Second, time.Second); err != nil {
 		return nil, err
 	}
 	return e, nil
@@ -137,11 +137,11 @@ func c10Run(t *testing.T, p c10Plan) (res vfResult) {
 			return
 		}
 		// a split before rollout targets exist is rejected
-		if err := e.r.SetRolloutSplit("svc", 50, nil); vfErrClass(err) != "no-rollout" {
+		if err := vfRolloutSet(e.r, "svc", 50, nil); vfErrClass(err) != "no-rollout" {
 			res.failf("set-before-targets", "rollout set before any rollout deploy returned %v, want %v", err, ErrorRolloutTargetNotSet)
 			return
 		}
-		if err := e.r.SetRolloutTargets("svc", e.roll, 5*time.Second, time.Second); err != nil {
+		if err := vfRolloutDeploy(e.r, "svc", e.roll, 5*time.Second, time.Second); err != nil {
 			res.failf("setup-failed", "rollout deploy: %v", err)
 			return
 		}
@@ -156,7 +156,7 @@ func c10Run(t *testing.T, p c10Plan) (res vfResult) {
 		included := map[string][101]bool{} // value -> percentage -> included (no allowlist)
 		crossed := false
 		for pct := 0; pct <= 100; pct++ {
-			if err := e.r.SetRolloutSplit("svc", pct, nil); err != nil {
+			if err := vfRolloutSet(e.r, "svc", pct, nil); err != nil {
 				res.failf("set-failed", "rollout set %d: %v", pct, err)
 				return
 			}
@@ -198,7 +198,7 @@ func c10Run(t *testing.T, p c10Plan) (res vfResult) {
 		}
 		// allowlist: allowlisted values are in at every percentage; others behave as without the list
 		for _, pct := range []int{0, 1, 37, 99, 100} {
-			if err := e.r.SetRolloutSplit("svc", pct, p.Allow); err != nil {
+			if err := vfRolloutSet(e.r, "svc", pct, p.Allow); err != nil {
 				res.failf("set-failed", "rollout set %d %v: %v", pct, p.Allow, err)
 				return
 			}
@@ -233,7 +233,7 @@ func c10Run(t *testing.T, p c10Plan) (res vfResult) {
 			}
 		}
 		for _, pct := range probe {
-			e.r.SetRolloutSplit("svc", pct, nil)
+			vfRolloutSet(e.r, "svc", pct, nil)
 			for _, h := range p.Headers {
 				var parts []string
 				var exact []bool
@@ -281,7 +281,7 @@ func c10Run(t *testing.T, p c10Plan) (res vfResult) {
 		// the rollout cookie is carried next to junk the cookie parser skips, or on a second Cookie line: the decision
 		// is still the one its value gets alone
 		for _, pct := range probe {
-			e.r.SetRolloutSplit("svc", pct, nil)
+			vfRolloutSet(e.r, "svc", pct, nil)
 			for _, v := range p.Values {
 				want, _ := e.side("kamal-rollout=" + v)
 				for _, hdr := range []string{
@@ -312,7 +312,7 @@ func c10Run(t *testing.T, p c10Plan) (res vfResult) {
 		// the decision is a pure function of the value also when many requests are decided at once
 		{
 			pct := probe[len(probe)-1]
-			e.r.SetRolloutSplit("svc", pct, nil)
+			vfRolloutSet(e.r, "svc", pct, nil)
 			var wg sync.WaitGroup
 			var bad atomic.Value
 			for gi := 0; gi < 8; gi++ {
@@ -339,7 +339,7 @@ func c10Run(t *testing.T, p c10Plan) (res vfResult) {
 			}
 		}
 		// rollout stop: back to active for everything
-		if err := e.r.StopRollout("svc"); err != nil {
+		if err := vfRolloutStop(e.r, "svc"); err != nil {
 			res.failf("stop-failed", "rollout stop: %v", err)
 			return
 		}
@@ -450,7 +450,7 @@ func c10HistRun(t *testing.T, p c10HistPlan) (res vfResult) {
 			res.failf("setup-failed", "%v", err)
 			return
 		}
-		if err := ref.r.SetRolloutTargets("svc", ref.roll, 5*time.Second, time.Second); err != nil {
+		if err := vfRolloutDeploy(ref.r, "svc", ref.roll, 5*time.Second, time.Second); err != nil {
 			res.failf("setup-failed", "%v", err)
 			return
 		}
@@ -459,7 +459,7 @@ func c10HistRun(t *testing.T, p c10HistPlan) (res vfResult) {
 		for _, st := range p.Steps {
 			if st.Op == "set" && table[st.Pct] == nil {
 				table[st.Pct] = map[string]bool{}
-				ref.r.SetRolloutSplit("svc", st.Pct, nil)
+				vfRolloutSet(ref.r, "svc", st.Pct, nil)
 				for _, v := range p.Values {
 					s, _ := ref.side("kamal-rollout=" + v)
 					table[st.Pct][v] = s == "rollout"
@@ -481,12 +481,12 @@ func c10HistRun(t *testing.T, p c10HistPlan) (res vfResult) {
 			var err error
 			switch st.Op {
 			case "rollout-deploy":
-				err = e.r.SetRolloutTargets("svc", e.roll, 5*time.Second, time.Second)
+				err = vfRolloutDeploy(e.r, "svc", e.roll, 5*time.Second, time.Second)
 				if err == nil {
 					hasTargets = true
 				}
 			case "set":
-				err = e.r.SetRolloutSplit("svc", st.Pct, st.Allow)
+				err = vfRolloutSet(e.r, "svc", st.Pct, st.Allow)
 				if hasTargets {
 					if err != nil {
 						res.failf("set-rejected", "%s: rollout targets exist but set failed: %v", ctx, err)
@@ -499,12 +499,12 @@ func c10HistRun(t *testing.T, p c10HistPlan) (res vfResult) {
 				}
 				err = nil
 			case "stop":
-				err = e.r.StopRollout("svc")
+				err = vfRolloutStop(e.r, "svc")
 				hasSplit = false
 			case "redeploy":
 				opts := ServiceOptions{TLSRedirect: true}
 				opts.Normalize()
-				err = e.r.DeployService("svc", e.active, opts, vfFastTargetOptions(), 5*time.Second, time.Second)
+				err = vfDeploy(e.r, "svc", e.active, opts, vfFastTargetOptions(), 5*time.Second, time.Second)
 				if hasSplit {
 					between = true
 				}
@@ -524,7 +524,7 @@ func c10HistRun(t *testing.T, p c10HistPlan) (res vfResult) {
 					return
 				}
 				// the old process is gone
-				e.r.RemoveService("svc")
+				vfRemove(e.r, "svc")
 				e.r = nr
 				res.label("restart")
 				if hasSplit {
